@@ -185,8 +185,10 @@ def run_case(case):
         if isinstance(wr, RecWriter):
             v.check(len(wr.meta) == 2, "kernel registers its parameters with the writer", meta=[m[0] for m in wr.meta])
         for n_ev in range(case["events"]):
+            keep_signals = n_ev > 0 and bool(rng.random() < 0.5)      # a second event on antennas that still hold the first one's signals
             for a_ in ant_list:
-                a_.clear()
+                if not keep_signals:
+                    a_.clear()
                 getlog(a_).clear()
             del model_calls[:]
             del trig_calls[:]
